@@ -367,7 +367,14 @@ func c05Unit(c *RunCtx, unit int) {
 		c.Stats.Count("recombination-phase")
 	}
 	ttl := s.W.AB.Config.Modules.RecoverTokenDuration
-	for _, kind := range []string{"confirm", "recover"} {
+	kinds := []string{"confirm", "recover"}
+	if unit%2 == 1 {
+		// the recovery links are used first, while the confirmation links are still outstanding: a recovery
+		// is no confirmation, the confirmation links work afterwards
+		kinds = []string{"recover", "confirm"}
+		c.Stats.Count("units-recovering-before-confirming")
+	}
+	for _, kind := range kinds {
 		for ai, ac := range s.Accts {
 			if bad {
 				return
